@@ -141,7 +141,7 @@ def run_shard(shard):
             leaves = jax.tree_util.tree_leaves(gp)
             bad_leaf = jnp.stack([~jnp.isfinite(l).all() for l in leaves]) if leaves else jnp.zeros((0,), bool)
             return {"lp": lp, "gx_finite": jnp.isfinite(gx).all(), "gx": gx, "bad_leaf": bad_leaf,
-                    "gnorm": sum((jnp.abs(jnp.nan_to_num(l)).max() for l in leaves), 0.0) if leaves else 0.0}
+                    "gnorm": sum((jnp.abs(jnp.nan_to_num(l)).max() for l in leaves if l.size), 0.0) if leaves else 0.0}
 
         def run(d, xs, cs):
             if cshape is None:
